@@ -233,7 +233,9 @@ def block_cause(root):
   def walk(n):
     if not isinstance(n, bir.BaseBehavioralRTLIR): return
     if isinstance(n, (bir.BinOp, bir.Compare, bir.UnaryOp, bir.IfExp)):
-      if int_valued(n): found.add("implicit-int")
+      # a conditional with one sized arm is typed by that arm (the int arm must fit): by itself it is not a computation on ints --
+      # only a conditional between two ints is; an operation whose operand MAY be an int (the int arm of a conditional) is
+      if (int_valued(n.body) and int_valued(n.orelse)) if isinstance(n, bir.IfExp) else int_valued(n): found.add("implicit-int")
       elif hasattr(n, "_value"): found.add("folded-constant")
     for f, val in vars(n).items():
       if f in ("ast", "Type"): continue
